@@ -6,6 +6,9 @@ from . import c10
 
 LEVEL = f1.LEVEL
 KINDS = ['ADD', 'REMOVE', 'DOTNONE']
+# second pass: a final check (to_string with and without intelligent choice) may run before the removal; the intelligent
+# search copies the container and re-homes the children, so what it leaves behind is part of the state remove() works on
+OBSERVE = ['TOSTRING']
 
 
 def units(tier):
@@ -52,9 +55,11 @@ def run_unit(name, tier, seed):
     red = hist.reduced_alphabet(name)
     full = lib.content_model(name).names
     if tier == 'quick':
-        passes = [dict(kinds=KINDS, D=8, budget=2000, alphabet=red)]
+        passes = [dict(kinds=KINDS, D=8, budget=2000, alphabet=red),
+                  dict(kinds_by_depth=lambda d: KINDS + OBSERVE if d <= 3 else KINDS, D=6, budget=1500, alphabet=red)]
     else:
-        passes = [dict(kinds=KINDS, D=10, budget=8000, alphabet=full)]
+        passes = [dict(kinds=KINDS, D=10, budget=8000, alphabet=full),
+                  dict(kinds_by_depth=lambda d: KINDS + OBSERVE if d <= 3 else KINDS, D=6, budget=1500, alphabet=red)]
     return f1.multi(name, passes, judge, judge_concrete)
 
 
@@ -70,10 +75,10 @@ def replay(c):
 def describe():
     return dict(
         rule='histories of ADD / REMOVE / xml_x = None of <= K operations per class; every history with a successful removal is '
-             'compared with a fresh element holding the remaining children (snapshot + acceptance vector over <= 8 names); '
+             '(second pass: final checks, with and without intelligent choice, may precede the removal) compared with a fresh element holding the remaining children (snapshot + acceptance vector over <= 8 names); '
              'non-trivial = histories with a removal whose twin could be built',
         functions=['xmlelement/xmlelement.py:XMLElement.remove', 'XMLElement._convert_attribute_to_child', 'XMLElement.add_child',
-                   'xmlelement/xmlchildcontainer.py:XMLChildContainer.add_element', 'XMLChildContainer.check_required_elements'],
-        bounds=dict(exploration='breadth-first over reachable states, depth <= 8 (10), path budget 2000 (8000) per class', outside='longer histories; histories with forward adds or replacements'),
+                   'xmlelement/xmlchildcontainer.py:XMLChildContainer.add_element', 'XMLChildContainer.check_required_elements', 'XMLChildContainer._check_choices_intelligently'],
+        bounds=dict(exploration='breadth-first over reachable states, depth <= 8 (10), path budget 2000 (8000) per class; second pass with to_string() / to_string(intelligent_choice=True) allowed at depth <= 3: depth <= 6, 1500 paths', outside='longer histories; histories with forward adds or replacements'),
         assumptions=['if the twin (fresh element + remaining children) cannot be built the case is skipped and counted'],
         exhaustive_within_bounds=True)
